@@ -560,15 +560,11 @@ fn lz77_distance_clamp(with_multiplier: bool) {
     } else {
         assert!(st.num_decoded == num_decoded && st.window.len() == len, "[C04] a failed step decodes nothing");
     }
+    // (few covers on purpose: CBMC writes a full trace, 2^20-entry ring included, for every satisfied cover -- 18 s each)
     let lz = r.is_ok() && rec[5] == 2;
-    kani::cover!(lz && rec[2] >= 1 << 21 && num_decoded > 1 << 20);                            // clamped by the window size
-    kani::cover!(lz && rec[2] as u32 == u32::MAX);                                             // d + 1 must not wrap
-    kani::cover!(lz && rec[2] >= 200 && rec[2] < (1 << 20) - 1 && rec[2] as u32 - 119 > num_decoded);  // clamped by num_decoded
-    kani::cover!(lz && with_multiplier == (rec[2] < 120 && st.copy_pos + 1 < num_decoded));    // special distance (multiplier mode only)
-    kani::cover!(lz && with_multiplier == (rec[2] == 3 && dist_multiplier == 1));              // offset -1, dist 1: max(1, 0)
-    kani::cover!(lz && num_decoded == (1 << 20) && st.copy_pos == 1);                          // oldest entry of an exactly full window
-    kani::cover!(lz && num_decoded == (1 << 21) + 5);
-    kani::cover!(lz && (num_decoded as usize) < WINDOW);
+    kani::cover!(lz && rec[2] >= 1 << 21 && num_decoded > (1 << 20) + 5);                                // clamped by the window size, after wrap-around
+    kani::cover!(lz && rec[2] >= 200 && rec[2] < (1 << 20) - 1 && rec[2] as u32 - 119 > num_decoded);    // clamped by num_decoded, ring not yet full
+    kani::cover!(lz && if with_multiplier { rec[2] == 3 && dist_multiplier == 1 } else { rec[2] as u32 == u32::MAX }); // max(1, -1 + 1) / d + 1 must not wrap
     kani::cover!(r.is_ok() && !lz);
     kani::cover!(matches!(&r, Err(Error::InvalidLz77Symbol)));
 }
